@@ -7,7 +7,7 @@ git -C /repo worktree add -q --detach "$WT" HEAD || exit 2
 trap 'git -C /repo worktree remove --force "$WT"; git -C /repo worktree prune' EXIT
 echo "snapshot: $(git -C $WT rev-parse --short HEAD)" > $OUT.summary
 (cd "$WT" && env -u GOFLAGS GOPROXY=off GOSUMDB=off GOTOOLCHAIN=local go test -mod=mod -json -vet=off -count=1 -timeout 50m ./... > $OUT.json 2> $OUT.err)
-python3 - "$OUT.json" >> $OUT.summary <<'PY'
+python3 - "$OUT.json" "$WT" >> $OUT.summary <<'PY'
 import json,sys
 base=set(json.load(open('/root/.vp/BASELINE.json'))['stable_pass'])
 res={}
@@ -15,7 +15,7 @@ for l in open(sys.argv[1]):
     try: e=json.loads(l)
     except: continue
     if e.get('Test') and e.get('Action') in('pass','fail','skip'):
-        res[e['Package']+'::'+e['Test']]=e['Action']
+        res[e['Package']+'::'+e['Test'].replace(sys.argv[2],'/repo')]=e['Action']
 missing=[t for t in base if res.get(t)!='pass']
 print('baseline tests:',len(base),'passing now:',len(base)-len(missing))
 for t in sorted(missing): print('NOT PASSING:',t,res.get(t))
